@@ -150,6 +150,8 @@ def base_iter(case, cat):
 def apply_op(it, op, cat):
     n = op['op']
     if n in ('map', 'filter', 'takewhile', 'dropwhile', 'unique'):
+        if op.get('f') is None:                    # the method's default argument (key=T)
+            return getattr(it, n)()
         return getattr(it, n)(cat[op['f']])
     if n == 'flatten':
         return it.flatten()
@@ -171,6 +173,8 @@ def apply_op(it, op, cat):
                 kw['sep'] = dec(sep['scalar'])
             elif 'set' in sep:
                 kw['sep'] = [dec(x) for x in sep['set']]
+            elif 'fn' in sep:
+                kw['sep'] = cat[sep['fn']]         # a callable separator (called by split_iter itself)
         if op.get('maxsplit') is not None:
             kw['maxsplit'] = op['maxsplit']
         return it.split(**kw)
@@ -183,88 +187,260 @@ def chain(it, ops, cat):
     return it
 
 
-def make_source(src, counter):
+R_DEFAULT = 3
+
+
+class SrcState(object):
+    """instrumentation of one source object: items handed out, whether close() was called on it"""
+    def __init__(self):
+        self.pulled = 0
+        self.closed = False
+
+
+class PlainSource(object):
+    """an object that is its own iterator (like a file or a cursor), without close()"""
+    def __init__(self, items, tail, st):
+        self._items, self._tail, self._st = items, tail, st
+
+    def __iter__(self):
+        return self
+
+    def __next__(self):
+        st = self._st
+        if st.closed:
+            raise StopIteration
+        if st.pulled < len(self._items):
+            st.pulled += 1
+            return self._items[st.pulled - 1]
+        if self._tail:
+            raise EXC[self._tail]('source')
+        raise StopIteration
+
+
+class ClosableSource(PlainSource):
+    """... with close(): a closed source yields nothing more"""
+    def close(self):
+        self._st.closed = True
+
+
+def make_source(src, st, kind='gen'):
+    """the target of a run: a generator / an iterator object with close() / one without"""
     items = [dec(x) for x in src['fin']]
     tail = src.get('tail')
+    if kind == 'obj':
+        return ClosableSource(items, tail, st)
+    if kind == 'plain':
+        return PlainSource(items, tail, st)
 
     def gen():
-        for x in items:
-            counter[0] += 1
-            yield x
+        try:
+            for x in items:
+                st.pulled += 1
+                yield x
+        except GeneratorExit:          # close() on the suspended generator (or its disposal)
+            st.closed = True
+            raise
         if tail:
             raise EXC[tail]('source')
     return gen()
 
 
-def run_take(spec, src, k):
-    import glom
-    counter = [0]
-    try:
-        it = glom.glom(make_source(src, counter), spec)
-    except Exception as e:
-        return {'items': [], 'fin': {'raised': exc_name(e)}, 'pulls': counter[0]}
+def probe(source, st, src, r):
+    """what the caller finds on the source object after glom is done with it: up to r items by
+    next() (a source that raises at its end is not asked beyond its last item)"""
+    n = len(src['fin'])
+    rest, ended = [], False
+    for _ in range(r):
+        if src.get('tail') and st.pulled >= n:
+            break
+        try:
+            rest.append(enc(next(source)))
+        except StopIteration:
+            ended = True
+            break
+        except Exception as e:
+            rest.append({'x': 'raised ' + exc_name(e)})
+            break
+    return {'rest': rest, 'ended': ended, 'closed': st.closed}
+
+
+def take_from(it, st, k):
     items = []
     for _ in range(k):
         try:
             items.append(enc(next(it)))
         except StopIteration:
-            return {'items': items, 'fin': 'exhausted', 'pulls': counter[0]}
+            return {'items': items, 'fin': 'exhausted', 'pulls': st.pulled}
         except Exception as e:
-            return {'items': items, 'fin': {'raised': exc_name(e)}, 'pulls': counter[0]}
-    return {'items': items, 'fin': 'gotK', 'pulls': counter[0]}
+            return {'items': items, 'fin': {'raised': exc_name(e)}, 'pulls': st.pulled}
+    return {'items': items, 'fin': 'gotK', 'pulls': st.pulled}
 
 
-def run_all(spec, src):
+def run_take(spec, src, k, kind='gen', r=R_DEFAULT):
     import glom
-    counter = [0]
+    st = SrcState()
+    source = make_source(src, st, kind)
     try:
-        res = glom.glom(make_source(src, counter), spec.all())
+        it = glom.glom(source, spec)
     except Exception as e:
-        return {'fin': {'raised': exc_name(e)}, 'pulls': counter[0]}
-    return {'items': [enc(x) for x in res], 'fin': 'exhausted', 'pulls': counter[0]}
+        out = {'items': [], 'fin': {'raised': exc_name(e)}, 'pulls': st.pulled}
+    else:
+        out = take_from(it, st, k)
+    out['src_after'] = probe(source, st, src, r)
+    return out
+
+
+def run_all(spec, src, kind='gen', r=R_DEFAULT):
+    import glom
+    st = SrcState()
+    source = make_source(src, st, kind)
+    try:
+        res = glom.glom(source, spec.all())
+    except Exception as e:
+        out = {'fin': {'raised': exc_name(e)}, 'pulls': st.pulled}
+    else:
+        out = {'items': [enc(x) for x in res], 'fin': 'exhausted', 'pulls': st.pulled}
+    out['src_after'] = probe(source, st, src, r)
+    return out
 
 
 _DEFAULT = object()
 
 
-def run_first(spec, src, key):
+def first_spec(spec, mode, cat):
+    """spec.first(key, default=…) in each of its call forms: `first()` (key=T, default=None),
+    `first(default=D)`, `first(key, default=D)`.  Without a key only truthy items are found, so
+    a result of None can only be the default."""
+    name = mode['first']
+    if name is None:
+        if mode.get('nodefault'):
+            return spec.first(), None
+        return spec.first(default=_DEFAULT), _DEFAULT
+    return spec.first(cat[name], default=_DEFAULT), _DEFAULT
+
+
+def run_first(spec, src, mode, cat, kind='gen', r=R_DEFAULT):
     import glom
-    counter = [0]
+    st = SrcState()
+    source = make_source(src, st, kind)
     try:
-        res = glom.glom(make_source(src, counter), spec.first(key, default=_DEFAULT))
+        fs, dflt = first_spec(spec, mode, cat)
+        res = glom.glom(source, fs)
     except Exception as e:
-        return {'first': {'raised': exc_name(e)}, 'pulls': counter[0]}
-    if res is _DEFAULT:
-        return {'first': 'default', 'pulls': counter[0]}
-    return {'first': {'found': enc(res)}, 'pulls': counter[0]}
+        out = {'first': {'raised': exc_name(e)}, 'pulls': st.pulled}
+    else:
+        if res is dflt:
+            out = {'first': 'default', 'pulls': st.pulled}
+        else:
+            out = {'first': {'found': enc(res)}, 'pulls': st.pulled}
+    out['src_after'] = probe(source, st, src, r)
+    return out
 
 
 def run_impl(case):
     if case.get('kind') == 'invoke':
         return run_invoke(case)
+    if case.get('kind') == 'reuse':
+        return run_reuse(case)
     cat = catalogue()
     src, k = case['src'], case['k']
+    sk, r = case.get('srckind', 'gen'), case.get('R', R_DEFAULT)
     out = dict(case)
     p = chain(base_iter(case, cat), case['p'], cat)
     r0 = repr(p)
-    before = run_take(p, src, k)
+    before = run_take(p, src, k, sk, r)
     d1 = chain(p, case['e1'], cat)
     if case['e1']:
-        run_take(d1, src, k)                      # use the first derivation, too
+        run_take(d1, src, k, sk, r)               # use the first derivation, too
     d2 = chain(p, case['e2'], cat)
     r1 = repr(p)
-    after = run_take(p, src, k)
-    reused = run_take(d2, src, k)
-    fresh = run_take(chain(base_iter(case, cat), case['p'] + case['e2'], cat), src, k)
+    after = run_take(p, src, k, sk, r)
+    reused = run_take(d2, src, k, sk, r)
+    fresh = run_take(chain(base_iter(case, cat), case['p'] + case['e2'], cat), src, k, sk, r)
     mode = case['mode']
     if mode == 'take':
         main = None
     elif mode == 'all':
-        main = run_all(d2, src)
+        main = run_all(d2, src, sk, r)
     else:
-        main = run_first(d2, src, cat[mode['first']])
+        main = run_first(d2, src, mode, cat, sk, r)
     out['impl'] = {'main': main, 'repr_same': r0 == r1, 'before': before, 'after': after,
                    'reused': reused, 'fresh': fresh}
+    return out
+
+
+# ----------------------------------------------------------------------------- one source, several pipelines
+
+def run_reuse(case):
+    """several pipelines consume ONE source object, one after the other: separate glom calls
+    (take k from an iterator that stays suspended and may be resumed later / all() / first()),
+    or the values of one dict spec.  Every step records what it yielded and the number of
+    source items handed out so far; the sequence ends at the first exception."""
+    import glom
+    cat = catalogue()
+    src, r = case['src'], case.get('R', R_DEFAULT)
+    st = SrcState()
+    source = make_source(src, st, case.get('srckind', 'gen'))
+    specs = [chain(base_iter(p, cat), p['ops'], cat) for p in case['pipes']]
+    obs = []
+
+    def terminal(step):
+        spec = specs[step['pipe']]
+        if step['mode'] == 'all':
+            return spec.all()
+        return first_spec(spec, step['mode'], cat)[0]
+
+    def record(step, res):
+        if step['mode'] == 'all':
+            obs.append({'items': [enc(x) for x in res], 'fin': 'exhausted', 'pulls': st.pulled})
+        elif res is (None if step['mode'].get('nodefault') else _DEFAULT):
+            obs.append({'first': 'default', 'pulls': st.pulled})
+        else:
+            obs.append({'first': {'found': enc(res)}, 'pulls': st.pulled})
+        return res
+
+    def failed(step, e):
+        if step['mode'] == 'take' or step['mode'] == 'all':
+            o = {'fin': {'raised': exc_name(e)}, 'pulls': st.pulled}
+            if step['mode'] == 'take':
+                o['items'] = []
+            obs.append(o)
+        else:
+            obs.append({'first': {'raised': exc_name(e)}, 'pulls': st.pulled})
+
+    steps = case['steps']
+    if case['form'] == 'dict':
+        # {'s0': (spec0, recorder0), 's1': (spec1, recorder1), …}: values are evaluated in order
+        spec = {}
+        for n, step in enumerate(steps):
+            spec['s%d' % n] = (terminal(step), (lambda res, step=step: record(step, res)))
+        try:
+            glom.glom(source, spec)
+        except Exception as e:
+            if len(obs) < len(steps):
+                failed(steps[len(obs)], e)
+    else:
+        live = {}
+        for step in steps:
+            i = step['pipe']
+            try:
+                if step['mode'] == 'take':
+                    if i not in live:
+                        live[i] = glom.glom(source, specs[i])
+                else:
+                    res = glom.glom(source, terminal(step))
+            except Exception as e:
+                failed(step, e)
+                break
+            if step['mode'] == 'take':
+                o = take_from(live[i], st, step['k'])
+                obs.append(o)
+                if isinstance(o['fin'], dict):
+                    break
+            else:
+                record(step, res)
+    out = dict(case)
+    out['impl'] = {'steps': obs, 'src_after': probe(source, st, src, r)}
     return out
 
 
@@ -332,6 +508,10 @@ PREDS_SEQ = ['length', 'T', 'one', 'zero', 'head']
 ALL_FNS = ['T', 'inc', 'dbl', 'neg', 'mod2', 'mod3', 'lt3', 'wrap', 'rng', 'pair', 'length', 'head',
            'bad3', 'none', 'zero', 'one']
 BASE_SUBS = ['skip_odd', 'stop_ge4', 'skip_stop']
+# callable separators of split(): plain functions (split_iter calls them; a T-expression would not do)
+SEP_FNS_INT = ['mod2', 'mod3', 'lt3', 'zero', 'one', 'none']
+SEP_FNS_SEQ = ['length', 'zero', 'one', 'none']
+SEP_FNS_ALL = ['mod2', 'mod3', 'lt3', 'zero', 'one', 'none', 'length', 'bad3', 'inc']
 
 
 def jv(v):
@@ -354,6 +534,8 @@ def gen_op(rng, ty, mutate):
         f = rng.choice(SEQ_FNS)
         return {'op': 'map', 'f': f}, ('seq' if f in ('T', 'dbl') else 'int')
     if kind in ('filter', 'takewhile', 'dropwhile'):
+        if rng.random() < 0.12:
+            return {'op': kind}, ty                 # the default key (T)
         f = rng.choice(ALL_FNS if mutate else (PREDS_INT if ty == 'int' else PREDS_SEQ))
         return {'op': kind, 'f': f}, ty
     if kind == 'slice':
@@ -367,27 +549,31 @@ def gen_op(rng, ty, mutate):
             a = [rng.choice([None, 0, 1, 2, 6]), stop, rng.choice([None, 1, 2, 3])]
         return {'op': 'slice', 'a': a}, ty
     if kind == 'limit':
-        return {'op': 'limit', 'n': rng.choice([0, 1, 2, 3, 5, None])}, ty
+        return {'op': 'limit', 'n': rng.choice([0, 1, 2, 3, 5, 20, None])}, ty
     if kind == 'chunked':
-        op = {'op': 'chunked', 'size': rng.choice([1, 2, 2, 3])}
-        if rng.random() < 0.4:
+        op = {'op': 'chunked', 'size': rng.choice([1, 2, 2, 3, 4])}
+        if rng.random() < 0.45:
             op['fill'] = {'v': jv(rng.choice([None, 0, 9]))}
         return op, 'seq'
     if kind == 'windowed':
-        return {'op': 'windowed', 'size': rng.choice([1, 2, 2, 3])}, 'seq'
+        return {'op': 'windowed', 'size': rng.choice([1, 2, 2, 3, 4])}, 'seq'
     if kind == 'split':
         op = {'op': 'split'}
         r = rng.random()
-        if r < 0.35:
+        if r < 0.3:
             pass
-        elif r < 0.65:
-            op['sep'] = {'scalar': jv(rng.choice([0, 1, 2]))}
-        else:
+        elif r < 0.55:
+            op['sep'] = {'scalar': jv(rng.choice([0, 1, 2, None]))}
+        elif r < 0.8:
             op['sep'] = {'set': [jv(x) for x in rng.sample([None, 0, 1, 2, 3], rng.randint(0, 2))]}
-        if rng.random() < 0.4:
-            op['maxsplit'] = rng.choice([1, 2, 3])
+        else:
+            op['sep'] = {'fn': rng.choice(SEP_FNS_ALL if mutate else (SEP_FNS_INT if ty == 'int' else SEP_FNS_SEQ))}
+        if rng.random() < 0.45:
+            op['maxsplit'] = rng.choice([1, 1, 2, 3])
         return op, 'seq'
     if kind == 'unique':
+        if rng.random() < 0.15:
+            return {'op': 'unique'}, ty             # the default key (T)
         if mutate:
             return {'op': 'unique', 'f': rng.choice(ALL_FNS)}, ty
         f = rng.choice(['T', 'mod2', 'mod3', 'lt3'] if ty == 'int' else ['length', 'head', 'length'])
@@ -417,7 +603,14 @@ def gen_source(rng, ty, infinite):
             items = [pat[i % len(pat)] for i in range(BUDGET)]      # itertools.cycle(pattern)
         return {'fin': [jv(x) for x in items], 'tail': 'Budget'}
     n = rng.choice([0, 1, 2, 3, 4, 5, 6, 7, 8, 10])
-    src = {'fin': [jv(item()) for _ in range(n)], 'tail': None}
+    if rng.random() < 0.25:                          # runs of equal items
+        items = []
+        while len(items) < n:
+            items += [item()] * rng.randint(1, 3)
+        items = items[:n]
+    else:
+        items = [item() for _ in range(n)]
+    src = {'fin': [jv(x) for x in items], 'tail': None}
     if rng.random() < 0.06:
         src['tail'] = rng.choice(['ValueError', 'KeyError'])
     return src
@@ -452,10 +645,81 @@ def gen_iter_case(rng, maxlen, focus):
     if rng.random() < (0.7 if focus.get('reuse') else 0.45):
         case['e1'] = [gen_op(rng, 'int', rng.random() < 0.2)[0] for _ in range(rng.randint(1, 2))]
     case['src'] = gen_source(rng, ty0, infinite)
+    if case['sentinel'] is not None and rng.random() < 0.6:
+        plant(rng, case['src'], dec(case['sentinel']['v']))
     case['k'] = rng.randint(0, 6)
     m = rng.random()
-    case['mode'] = 'take' if m < 0.6 else 'all' if m < 0.8 else {'first': rng.choice(['T', 'mod2', 'lt3', 'zero', 'one', 'length', 'bad3'])}
+    case['mode'] = 'take' if m < 0.6 else 'all' if m < 0.8 else gen_first_mode(rng)
+    case['srckind'] = gen_srckind(rng)
+    case['R'] = rng.choice(R_CHOICES)
     return case
+
+
+def gen_first_mode(rng):
+    r = rng.random()
+    if r < 0.15:
+        return {'first': None, 'nodefault': True}     # first()
+    if r < 0.3:
+        return {'first': None}                        # first(default=D)
+    return {'first': rng.choice(['T', 'mod2', 'lt3', 'zero', 'one', 'length', 'bad3'])}
+
+
+SRCKINDS = ['gen', 'obj', 'plain']
+R_CHOICES = [0, 1, 2, 3, 5]
+
+
+def gen_srckind(rng):
+    return rng.choices(SRCKINDS, [5, 3, 2])[0]
+
+
+def plant(rng, src, v):
+    """put the stop value `v` into the source, at 1-3 positions chosen uniformly (so that a run
+    stops before the end of its source at every position, and more than once per source)"""
+    items = src['fin']
+    for _ in range(rng.choice([1, 1, 2, 3])):
+        items.insert(rng.randint(0, min(len(items), 12)), jv(v))
+
+
+def gen_pipe(rng, ty0, src):
+    """one pipeline of a reuse case; most of them end before their source does: at a sentinel
+    planted in the source, at STOP from the subspec, or by a limiting stage"""
+    pipe = {'sub': 'T', 'sentinel': None, 'ops': []}
+    ty = ty0
+    r = rng.random()
+    if r < 0.4 or (0.6 <= r < 0.7):
+        v = rng.choice([None, 0, 1, 2, 3, 4])
+        pipe['sentinel'] = {'v': jv(v)}
+        plant(rng, src, v)
+    if ty0 == 'int' and 0.4 <= r < 0.7:
+        pipe['sub'] = rng.choice(BASE_SUBS)
+    elif r >= 0.9:
+        f = rng.choice(INT_FNS if ty0 == 'int' else SEQ_FNS)
+        pipe['sub'] = f
+        if ty0 == 'seq':
+            ty = 'seq' if f in ('T', 'dbl') else 'int'
+    for _ in range(rng.choice([0, 0, 1, 1, 2])):
+        op, ty = gen_op(rng, 'int' if ty == 'any' else ty, rng.random() < 0.1)
+        pipe['ops'].append(op)
+    return pipe
+
+
+def gen_reuse_case(rng):
+    ty0 = 'seq' if rng.random() < 0.15 else 'int'
+    src = gen_source(rng, ty0, rng.random() < 0.2)
+    pipes = [gen_pipe(rng, ty0, src) for _ in range(rng.choice([1, 2, 2]))]
+    form = 'dict' if rng.random() < 0.3 else 'calls'
+    steps = []
+    for _ in range(rng.choice([1, 2, 2, 3, 3, 4])):
+        i = rng.randrange(len(pipes))
+        m = rng.random()
+        if form != 'dict' and m < 0.5:
+            steps.append({'pipe': i, 'mode': 'take', 'k': rng.randint(0, 4)})
+        elif m < 0.85:
+            steps.append({'pipe': i, 'mode': 'all'})
+        else:
+            steps.append({'pipe': i, 'mode': gen_first_mode(rng)})
+    return {'kind': 'reuse', 'srckind': gen_srckind(rng), 'src': src, 'R': rng.choice(R_CHOICES),
+            'pipes': pipes, 'form': form, 'steps': steps}
 
 
 DEFAULT_OPS = [
@@ -479,7 +743,70 @@ EXH_SOURCES = [
 ]
 
 
+def _sl(*a):
+    return {'op': 'slice', 'a': list(a)}
+
+
+def param_ops():
+    """every builder method in every call form, each optional parameter absent and present, at
+    values whose effect shows on the PARAM_SOURCES (lengths below / at / above chunk and window
+    sizes and slice bounds, consecutive separators, colliding keys)"""
+    ops = []
+    for size in (1, 2, 3, 4):
+        ops.append({'op': 'chunked', 'size': size})
+        for fill in (None, 0):
+            ops.append({'op': 'chunked', 'size': size, 'fill': {'v': jv(fill)}})
+        ops.append({'op': 'windowed', 'size': size})
+    seps = [None, {'scalar': jv(0)}, {'scalar': None}, {'set': [None]}, {'set': [jv(0), jv(1)]}, {'set': []},
+            {'fn': 'mod2'}, {'fn': 'zero'}, {'fn': 'one'}, {'fn': 'none'}]
+    for sep in seps:
+        for ms in (None, 1, 2):
+            op = {'op': 'split'}
+            if sep is not None:
+                op['sep'] = sep
+            if ms is not None:
+                op['maxsplit'] = ms
+            ops.append(op)
+    ops.append({'op': 'flatten'})
+    for f in (None, 'T', 'mod2', 'mod3', 'lt3', 'zero'):
+        ops.append({'op': 'unique'} if f is None else {'op': 'unique', 'f': f})
+    for kind in ('filter', 'takewhile', 'dropwhile'):
+        for f in (None, 'zero', 'one', 'lt3', 'mod2'):
+            ops.append({'op': kind} if f is None else {'op': kind, 'f': f})
+    ops += [_sl(None), _sl(0), _sl(2), _sl(9), _sl(None, None), _sl(1, None), _sl(None, 3), _sl(1, 3), _sl(3, 1),
+            _sl(0, 9), _sl(None, None, None), _sl(None, None, 2), _sl(1, None, 2), _sl(1, 5, 2), _sl(None, 4, 3),
+            _sl(0, 9, 1), _sl(2, 2, 1), _sl(2, None, 3)]
+    for n in (0, 1, 3, 20, None):
+        ops.append({'op': 'limit', 'n': n})
+    ops += [{'op': 'map', 'f': 'inc'}, {'op': 'map', 'f': 'wrap'}, {'op': 'map', 'f': 'rng'}]
+    return ops
+
+
+PARAM_SOURCES = [[], [1], [0, 0], [1, 2, 0], [1, 0, 0, 2], [3, 1, 2, 0, 2], [1, 2, 0, None, None, 3, 0, 4],
+                 [[1, 2], [], (3,), [], [0, 0]]]
+PARAM_FIRSTS = [{'first': None, 'nodefault': True}, {'first': None}, {'first': 'mod2'}, {'first': 'zero'},
+                {'first': 'one'}, {'first': 'lt3'}]
+
+
+def param_sweep(tier):
+    n = 0
+    for op in param_ops():
+        for si, xs in enumerate(PARAM_SOURCES):
+            for k in ((2, 9) if tier == 'quick' else (0, 1, 2, 3, 9)):
+                n += 1
+                yield {'kind': 'iter', 'sub': 'T', 'sentinel': None, 'p': [], 'e1': [], 'e2': [op],
+                       'src': {'fin': [jv(x) for x in xs], 'tail': None}, 'k': k,
+                       'mode': 'all' if n % 3 == 0 else 'take', 'srckind': SRCKINDS[n % 3], 'R': n % 3}
+    for mode in PARAM_FIRSTS:
+        for xs in PARAM_SOURCES:
+            for sub in ('T', 'skip_odd'):
+                yield {'kind': 'iter', 'sub': sub, 'sentinel': None, 'p': [], 'e1': [], 'e2': [],
+                       'src': {'fin': [jv(x) for x in xs], 'tail': None}, 'k': 1, 'mode': mode,
+                       'srckind': 'gen', 'R': 2}
+
+
 def exhaustive(tier):
+    yield from param_sweep(tier)
     if tier == 'quick':
         plan = [(0, EXH_SOURCES[:2], [0, 1, 2, 3, 4, 5, 6], DEFAULT_OPS),
                 (1, EXH_SOURCES[:4], [0, 1, 2, 3, 4, 5, 6], DEFAULT_OPS),
@@ -529,6 +856,8 @@ def generate(rng, tier, scale, **focus):
     for i in range(n):
         if i % 8 == 7:
             yield gen_invoke_case(rng)
+        elif i % 8 in (2, 5):
+            yield gen_reuse_case(rng)
         else:
             yield gen_iter_case(rng, maxlen, focus)
     if not focus:
@@ -547,7 +876,8 @@ def corpus():
 
 
 def key(case):
-    return {k: case.get(k) for k in ('kind', 'sub', 'sentinel', 'p', 'e1', 'e2', 'src', 'k', 'mode', 'target')}
+    return {k: case.get(k) for k in ('kind', 'sub', 'sentinel', 'p', 'e1', 'e2', 'src', 'k', 'mode', 'target',
+                                     'srckind', 'R', 'pipes', 'form', 'steps')}
 
 
 def _raised(o):
@@ -557,6 +887,9 @@ def _raised(o):
 
 def nontrivial(case, verdict):
     impl = case.get('impl') or {}
+    if case.get('kind') == 'reuse':
+        return len(case['steps']) >= 2 or any(p['ops'] for p in case['pipes']) or \
+            any(_raised(o) for o in impl.get('steps', []))
     if len(case['p']) + len(case['e2']) >= 2:
         return True
     if case['e1'] and (case['p'] or case['e2']):
@@ -570,6 +903,8 @@ def focus(disagreements, facts_changed):
         f['sentinel'] = True
         f['reuse'] = True
     for c, _ in disagreements or []:
+        if c.get('kind') == 'reuse':
+            continue
         if c.get('sentinel') is not None:
             f['sentinel'] = True
         if c.get('e1'):
@@ -577,7 +912,40 @@ def focus(disagreements, facts_changed):
     return f
 
 
+def shrink_reuse(case):
+    base = {k: v for k, v in case.items() if not k.startswith('impl')}
+    steps, pipes = case['steps'], case['pipes']
+    for i in range(len(steps)):
+        if len(steps) > 1:
+            yield dict(base, steps=steps[:i] + steps[i + 1:])
+    for pi, p in enumerate(pipes):
+        for i in range(len(p['ops'])):
+            q = dict(p, ops=p['ops'][:i] + p['ops'][i + 1:])
+            yield dict(base, pipes=pipes[:pi] + [q] + pipes[pi + 1:])
+        if p['sub'] != 'T':
+            yield dict(base, pipes=pipes[:pi] + [dict(p, sub='T')] + pipes[pi + 1:])
+    items = case['src']['fin']
+    for i in range(len(items)):
+        yield dict(base, src=dict(case['src'], fin=items[:i] + items[i + 1:]))
+    if items:
+        yield dict(base, src=dict(case['src'], fin=items[:len(items) // 2]))
+    for i, st in enumerate(steps):
+        if st['mode'] == 'take' and st['k'] > 0:
+            yield dict(base, steps=steps[:i] + [dict(st, k=st['k'] - 1)] + steps[i + 1:])
+        if st['mode'] != 'all':
+            yield dict(base, steps=steps[:i] + [{'pipe': st['pipe'], 'mode': 'all'}] + steps[i + 1:])
+    if case.get('R', R_DEFAULT) > 1:
+        yield dict(base, R=1)
+    if case['form'] == 'dict':
+        yield dict(base, form='calls')
+    if case.get('srckind', 'gen') != 'gen':
+        yield dict(base, srckind='gen')
+
+
 def shrink(case):
+    if case.get('kind') == 'reuse':
+        yield from shrink_reuse(case)
+        return
     base = {k: v for k, v in case.items() if not k.startswith('impl')}
     for part in ('e1', 'p', 'e2'):
         ops = case[part]
@@ -608,3 +976,7 @@ def shrink(case):
         c = dict(base)
         c['sentinel'] = None
         yield c
+    if case.get('R', R_DEFAULT) > 1:
+        yield dict(base, R=1)
+    if case.get('srckind', 'gen') != 'gen':
+        yield dict(base, srckind='gen')
